@@ -46,13 +46,70 @@ const ACTORS: [&str; 3] = ["Alice", "Bob", "Carol"];
 const VALUES: [&str; 3] = ["healthy", "degraded", "down"];
 const N_EVID: usize = 3;
 /// instants used for valid_time and FOR TIME, already in the stored (normalised) form
-const T: [&str; 5] = [
+/// (sorted; one boundary lies inside a second, so a spelling without a fraction can fall on either side)
+const T: [&str; 6] = [
     "2020-01-01T00:00:00.000Z",
     "2021-06-01T00:00:00.000Z",
     "2022-01-01T00:00:00.000Z",
+    "2022-01-01T00:00:00.500Z",
     "2023-06-01T00:00:00.000Z",
     "2030-01-01T00:00:00.000Z",
 ];
+
+// ---------------------------------------------------------------- instants and their spellings
+
+/// days since 1970-01-01 of a proleptic Gregorian date (Howard Hinnant's algorithm)
+fn days_from_civil(y: i64, m: i64, d: i64) -> i64 {
+    let y = if m <= 2 { y - 1 } else { y };
+    let era = if y >= 0 { y } else { y - 399 } / 400;
+    let yoe = y - era * 400;
+    let doy = (153 * (if m > 2 { m - 3 } else { m + 9 }) + 2) / 5 + d - 1;
+    let doe = yoe * 365 + yoe / 4 - yoe / 100 + doy;
+    era * 146097 + doe - 719468
+}
+fn civil_from_days(z: i64) -> (i64, i64, i64) {
+    let z = z + 719468;
+    let era = if z >= 0 { z } else { z - 146096 } / 146097;
+    let doe = z - era * 146097;
+    let yoe = (doe - doe / 1460 + doe / 36524 - doe / 146096) / 365;
+    let y = yoe + era * 400;
+    let doy = doe - (365 * yoe + yoe / 4 - yoe / 100);
+    let mp = (5 * doy + 2) / 153;
+    let d = doy - (153 * mp + 2) / 5 + 1;
+    let m = if mp < 10 { mp + 3 } else { mp - 9 };
+    (if m <= 2 { y + 1 } else { y }, m, d)
+}
+/// epoch milliseconds of a canonical `YYYY-MM-DDTHH:MM:SS.mmmZ`
+fn epoch_ms(canonical: &str) -> i64 {
+    let n = |a: usize, b: usize| canonical[a..b].parse::<i64>().unwrap();
+    let days = days_from_civil(n(0, 4), n(5, 7), n(8, 10));
+    ((days * 24 + n(11, 13)) * 60 + n(14, 16)) * 60_000 + n(17, 19) * 1000 + n(20, 23)
+}
+/// The instant written with the given UTC offset (minutes); `frac`: 0 = none (only when ms = 0), 3, 6 digits;
+/// `zulu`: write a zero offset as `Z`.
+fn spell(ms: i64, offset_min: i64, frac: usize, zulu: bool) -> String {
+    let local = ms + offset_min * 60_000;
+    let (days, rem) = (local.div_euclid(86_400_000), local.rem_euclid(86_400_000));
+    let (y, mo, d) = civil_from_days(days);
+    let (h, mi, sec, milli) = (rem / 3_600_000, rem / 60_000 % 60, rem / 1000 % 60, rem % 1000);
+    let mut s = format!("{y:04}-{mo:02}-{d:02}T{h:02}:{mi:02}:{sec:02}");
+    match frac { 0 => {} 3 => s.push_str(&format!(".{milli:03}")), _ => s.push_str(&format!(".{milli:03}000")) }
+    if offset_min == 0 && zulu { s.push('Z'); } else {
+        let (sign, a) = if offset_min < 0 { ('-', -offset_min) } else { ('+', offset_min) };
+        s.push_str(&format!("{sign}{:02}:{:02}", a / 60, a % 60));
+    }
+    s
+}
+fn canonical_of(ms: i64) -> String { spell(ms, 0, 3, true) }
+/// Several RFC 3339 spellings of one instant; the first is the canonical stored form.
+fn spellings(ms: i64, lowercase_ok: bool) -> Vec<String> {
+    let f = if ms.rem_euclid(1000) == 0 { 0 } else { 3 };
+    let mut v = vec![canonical_of(ms), spell(ms, 0, f, true), spell(ms, 0, 3, false), spell(ms, 480, f, true),
+                     spell(ms, -300, 3, true), spell(ms, 330, f, true), spell(ms, 0, 6, true), spell(ms, -720, 6, true)];
+    if lowercase_ok { v.push(canonical_of(ms).to_lowercase()); }
+    v.dedup();
+    v
+}
 const ALL_MODES: [&str; 6] = ["observed", "stated", "inferred", "predicted", "hypothetical", "imported"];
 const BASELINE_MODES: [&str; 4] = ["observed", "stated", "inferred", "imported"];
 const FORECAST_MODES: [&str; 2] = ["predicted", "inferred"];
@@ -91,12 +148,24 @@ struct Variant {
     material: Option<f64>,
     policy: Option<&'static str>,
     modes: Option<Vec<&'static str>>,
+    /// FOR TIME written in this spelling (overrides `for_time`), with the canonical form of the same instant
+    spelled: Option<(String, String)>,
 }
 
 impl Variant {
+    /// the canonical (stored) form of the evaluation instant, when the query names one
+    fn canonical_at(&self) -> Option<String> {
+        match (&self.spelled, self.for_time) {
+            (Some((_, c)), _) => Some(c.clone()),
+            (None, Some(t)) => Some(T[t].to_string()),
+            _ => None,
+        }
+    }
     fn suffix(&self) -> String {
         let mut s = String::new();
-        if let Some(t) = self.for_time {
+        if let Some((spelling, _)) = &self.spelled {
+            s.push_str(&format!(" FOR TIME \"{spelling}\""));
+        } else if let Some(t) = self.for_time {
             s.push_str(&format!(" FOR TIME \"{}\"", T[t]));
         }
         let mut items = vec![];
@@ -422,7 +491,7 @@ fn row_json(la: &LA, id: u64) -> Value {
 
 fn status_ctor(s: &str) -> Value { mode_ctor(s) }
 
-fn model_line(sc: &Scenario, b: &Built, v: &Variant, a: &Answer) -> Value {
+fn model_line(sc: &Scenario, b: &Built, v: &Variant, a: &Answer, at: &str) -> Value {
     let mut own: Vec<(u64, Value)> = vec![];
     let mut rivals: Vec<(u64, Value)> = vec![];
     for (i, la) in sc.las.iter().enumerate() {
@@ -433,7 +502,7 @@ fn model_line(sc: &Scenario, b: &Built, v: &Variant, a: &Answer) -> Value {
     rivals.sort_by_key(|r| r.0);
     let policy = tup(vec![
         Value::Array(v.modes().iter().map(|m| mode_ctor(m)).collect()),
-        fbits(v.accept()), fbits(v.material()), fbits(0.5), json!(a.valid_at), json!(true),
+        fbits(v.accept()), fbits(v.material()), fbits(0.5), json!(at), json!(true),
     ]);
     let case = tup(vec![
         Value::Array(own.into_iter().map(|r| r.1).collect()),
@@ -458,7 +527,7 @@ fn confs() -> Vec<f64> {
     vec![0.0, 0.1, 0.25, 0.3, 0.35, 0.4, 0.5, 0.55, 0.6, 0.65, 0.7, 0.75, 0.8, 0.85, 0.9, 0.95, 1.0, 0.29, 0.31, 0.69, 0.71]
 }
 
-struct Features { anonymous: bool, unknown_mode: bool }
+struct Features { anonymous: bool, unknown_mode: bool, lowercase_time: bool }
 // `anonymous`: CREATE ASSERTION without `asserted_by` is accepted (the row is then attributed to the
 // null literal, not left empty: the `anonymous:{id}` arm of `eligible` is not reachable through KML).
 
@@ -481,8 +550,8 @@ fn gen_scenario(rng: &mut Rng, feats: &Features, k: usize) -> Scenario {
             else { ALL_MODES[rng.below(6) as usize].to_string() };
         let conf = if rng.chance(1, 8) { None } else { Some(*rng.pick(&confs)) };
         let (from, until) = if rng.chance(3, 5) { (None, None) } else {
-            let f = if rng.chance(2, 3) { Some(rng.below(5) as usize) } else { None };
-            let u = if rng.chance(1, 2) { Some(rng.below(5) as usize) } else { None };
+            let f = if rng.chance(2, 3) { Some(rng.below(T.len() as u64) as usize) } else { None };
+            let u = if rng.chance(1, 2) { Some(rng.below(T.len() as u64) as usize) } else { None };
             match (f, u) { (Some(a), Some(b)) if b <= a => (Some(b), Some(a).filter(|_| a != b)), x => x }
         };
         las.push(LA { prop, actor, evid, stance, mode, conf, from, until, fate: Fate::Active });
@@ -500,7 +569,7 @@ fn gen_scenario(rng: &mut Rng, feats: &Features, k: usize) -> Scenario {
 }
 
 fn variants(rng: &mut Rng) -> Vec<Variant> {
-    let none = Variant { for_time: None, accept: None, material: None, policy: None, modes: None };
+    let none = Variant { for_time: None, accept: None, material: None, policy: None, modes: None, spelled: None };
     let cs = confs();
     let (a, m) = { let x = *rng.pick(&cs); let y = *rng.pick(&cs); if y <= x { (x, y) } else { (y, x) } };
     // boundaries: a score equal to a threshold (0.0 with no opposition, or a confidence from the same pool)
@@ -508,7 +577,7 @@ fn variants(rng: &mut Rng) -> Vec<Variant> {
     vec![
         none.clone(),
         Variant { for_time: Some(1), ..none.clone() },
-        Variant { for_time: Some(3), ..none.clone() },
+        Variant { for_time: Some(4), ..none.clone() },
         Variant { accept: Some(a), material: Some(m), for_time: if rng.chance(1, 2) { Some(2) } else { None }, ..none.clone() },
         Variant { policy: Some("forecast"), ..none.clone() },
         Variant { for_time: Some(1), modes: Some(vec!["hypothetical", "stated", "observed", "predicted"]), ..none.clone() },
@@ -525,7 +594,7 @@ fn scenario_json(sc: &Scenario) -> Value {
 }
 
 async fn probe() -> Features {
-    let mut f = Features { anonymous: false, unknown_mode: false };
+    let mut f = Features { anonymous: false, unknown_mode: false, lowercase_time: false };
     let base = Scenario { functional: true, las: vec![] };
     let la = LA { prop: 0, actor: None, evid: vec![], stance: "support", mode: "stated".into(), conf: Some(0.9),
                   from: None, until: None, fate: Fate::Active };
@@ -533,7 +602,40 @@ async fn probe() -> Features {
     f.anonymous = build(&sc, &[0], "probe_anon").await.is_ok();
     let sc = Scenario { las: vec![LA { actor: Some(0), mode: "guessed".into(), ..la }], ..base };
     f.unknown_mode = build(&sc, &[0], "probe_mode").await.is_ok();
+    // does FOR TIME accept lower-case `t` / `z`?
+    let sc = Scenario { functional: true, las: vec![LA { prop: 0, actor: Some(0), evid: vec![], stance: "support",
+        mode: "stated".into(), conf: Some(0.9), from: None, until: None, fate: Fate::Active }] };
+    if let Ok(b) = build(&sc, &[0], "probe_time").await {
+        let v = Variant { for_time: None, accept: None, material: None, policy: None, modes: None,
+                          spelled: Some((T[1].to_lowercase(), T[1].to_string())) };
+        f.lowercase_time = project(&b, &sc, &v).await.is_ok();
+    }
     f
+}
+
+/// FOR TIME at the instants around every validity boundary of the scenario, in every spelling; for each
+/// instant the canonical spelling comes first.
+fn spelling_variants(sc: &Scenario, lowercase_ok: bool) -> Vec<Variant> {
+    let mut bounds: Vec<usize> = sc.las.iter().flat_map(|l| [l.from, l.until]).flatten().collect();
+    if bounds.is_empty() { bounds.push(1); }
+    bounds.sort();
+    bounds.dedup();
+    let mut instants: Vec<i64> = vec![];
+    for b in bounds {
+        let ms = epoch_ms(T[b]);
+        instants.extend([ms - 1, ms, ms + 1, ms - ms.rem_euclid(1000), ms - ms.rem_euclid(1000) + 1000]);
+    }
+    instants.sort();
+    instants.dedup();
+    let mut out = vec![];
+    for ms in instants {
+        let c = canonical_of(ms);
+        for sp in spellings(ms, lowercase_ok) {
+            out.push(Variant { for_time: None, accept: None, material: None, policy: None, modes: None,
+                               spelled: Some((sp, c.clone())) });
+        }
+    }
+    out
 }
 
 pub fn main(args: &[String]) {
@@ -594,6 +696,7 @@ async fn run(out_path: String, n_scen: usize, n_orders: usize, all_perms: usize)
     let mut failures: Vec<Value> = vec![];
     let (mut projections, mut nexuses, mut with_rivals, mut bridging, mut id_ordered) = (0u64, 0u64, 0u64, 0u64, 0u64);
     let (mut exhaustive_scenarios, mut exhaustive_orders, mut unattributed_pairs) = (0u64, 0u64, 0u64);
+    let (mut spelling_probes, mut spelling_instants) = (0u64, 0u64);
     let mut statuses: BTreeMap<String, u64> = BTreeMap::new();
     let mut reasons: BTreeMap<String, u64> = BTreeMap::new();
     let mut policies: BTreeMap<String, u64> = BTreeMap::new();
@@ -625,7 +728,12 @@ async fn run(out_path: String, n_scen: usize, n_orders: usize, all_perms: usize)
                                                   "scenario": scenario_json(&sc), "order": order})); continue; }
             };
             nexuses += 1;
-            for (vi, v) in vs.iter().enumerate() {
+            // the first recording order is also asked at instants just before / at / just after every validity
+            // boundary of the scenario, each instant written in several RFC 3339 spellings
+            let mut queries: Vec<Variant> = vs.clone();
+            if oi == 0 { queries.extend(spelling_variants(&sc, feats.lowercase_time)); }
+            let mut reference: BTreeMap<String, (Answer, String)> = BTreeMap::new();
+            for (vi, v) in queries.iter().enumerate() {
                 let a = match project(&built, &sc, v).await {
                     Ok(a) => a,
                     Err(e) => { failures.push(json!({"what": "e2e engine error while projecting", "error": e,
@@ -641,9 +749,34 @@ async fn run(out_path: String, n_scen: usize, n_orders: usize, all_perms: usize)
                 if (a.supporting.len() >= 3 && a.sg < a.supporting.len()) || (a.opposing.len() >= 3 && a.og < a.opposing.len()) { bridging += 1; }
                 let by_id = |v: &Vec<usize>| v.windows(2).all(|w| built.ids[w[0]] < built.ids[w[1]]);
                 if by_id(&a.supporting) && by_id(&a.uncertain) { id_ordered += 1; }
-                // (b) independent oracle
-                let want = oracle(&sc, v, &a.valid_at);
+                // the instant the projection must be evaluated at: the one the query names, in stored form
+                let at = v.canonical_at().unwrap_or(a.valid_at.clone());
                 let got = canonical(&a);
+                if a.valid_at != at {
+                    failures.push(json!({"what": "e2e spelling: temporal.valid_at is not the normalised FOR TIME instant",
+                        "scenario": scenario_json(&sc), "order": order, "query": v.suffix(), "valid_at": a.valid_at,
+                        "expected": at}));
+                }
+                let mut first_of_instant = true;
+                if let Some((spelling, c)) = &v.spelled {
+                    spelling_probes += 1;
+                    match reference.get(c) {
+                        None => { reference.insert(c.clone(), (a.clone(), spelling.clone())); spelling_instants += 1; }
+                        Some((a0, spelling0)) => {
+                            first_of_instant = false;
+                            if canonical(a0) != got || a0.valid_at != a.valid_at {
+                                failures.push(json!({"what": "e2e spelling: the projection depends on how the FOR TIME instant is written",
+                                    "scenario": scenario_json(&sc), "order": order,
+                                    "kml": order.iter().map(|&i| create_command(&sc.las[i], &["E-1".into(), "E-2".into(), "E-3".into()])).collect::<Vec<_>>(),
+                                    "for_time_a": spelling0, "for_time_b": spelling, "same_instant": c,
+                                    "answers_differ": canonical(a0) != got,
+                                    "a": canonical(a0), "b": got, "valid_at_a": a0.valid_at, "valid_at_b": a.valid_at}));
+                            }
+                        }
+                    }
+                }
+                // (b) independent oracle
+                let want = oracle(&sc, v, &at);
                 if want != got {
                     let field = ["status", "support_groups", "opposition_groups", "support_bits", "opposition_bits",
                                  "supporting", "opposing", "uncertain", "excluded"]
@@ -665,7 +798,7 @@ async fn run(out_path: String, n_scen: usize, n_orders: usize, all_perms: usize)
                                          "order": order, "query": v.suffix(), "engine": got}));
                 }
                 // (a) recording order
-                match &first[vi] {
+                if vi < vs.len() { match &first[vi] {
                     None => first[vi] = Some((a.clone(), order.clone())),
                     Some((a0, order0)) => {
                         if canonical(a0) != got || a0.valid_at != a.valid_at && v.for_time.is_some() {
@@ -674,16 +807,25 @@ async fn run(out_path: String, n_scen: usize, n_orders: usize, all_perms: usize)
                                 "query": v.suffix(), "a": canonical(a0), "b": got}));
                         }
                     }
-                }
-                writeln!(out, "{}", model_line(&sc, &built, v, &a)).unwrap();
+                } }
+                if first_of_instant { writeln!(out, "{}", model_line(&sc, &built, v, &a, &at)).unwrap(); }
             }
         }
     }
+    // the most telling failing inputs first: a different answer, then a disagreement with the oracle, then the rest
+    failures.sort_by_key(|f| {
+        let w = f["what"].as_str().unwrap_or("");
+        if f["answers_differ"] == json!(true) || w.contains("recording order") { 0 }
+        else if w.contains("independent oracle") || w.contains("rejected without") || w.contains("silence") { 1 }
+        else { 2 }
+    });
     writeln!(out, "{}", json!({"kind": "summary", "scenarios": n_scen + fixed.len(), "nexus_instances": nexuses,
         "all_permutation_scenarios": exhaustive_scenarios, "all_permutation_orders": exhaustive_orders,
         "two_unattributed_on_one_side": unattributed_pairs,
+        "for_time_spelling_probes": spelling_probes, "for_time_spelled_instants": spelling_instants,
         "projections": projections, "evaluations": projections, "statuses": statuses, "excluded_reasons": reasons,
         "policies": policies, "with_rivals": with_rivals, "bridging": bridging, "ledgers_in_id_order": id_ordered,
-        "features": {"anonymous_assertion": feats.anonymous, "unknown_mode_string": feats.unknown_mode},
+        "features": {"anonymous_assertion": feats.anonymous, "unknown_mode_string": feats.unknown_mode,
+                     "lowercase_t_z_accepted": feats.lowercase_time},
         "oracle_failures": failures.len(), "failures": failures.iter().take(5).collect::<Vec<_>>()})).unwrap();
 }
